@@ -67,6 +67,11 @@ func extractStages() {
 	} else {
 		s.str("seenHQSends", sent, true)
 	}
+	s.boolean("seenHQSeedNeverChecked", strings.Contains(hs, "iflen(items)==1&&items[0].IsSeed(){returnnil}") &&
+		strings.Contains(hs, "ifitems[i].IsSeed(){continue}"))
+	s.boolean("seenHQOnlyFreshSent", strings.Contains(hs, "ifitems[i].GetStatus()==models.ItemFresh{"))
+	s.boolean("seenHQAbsentMarkedSeen", strings.Contains(hs, "if!found{items[i].SetStatus(models.ItemSeen)}") &&
+		strings.Contains(hs, "outputURLs,err:=globalHQ.client.Seencheck(context.TODO(),URLsToSeencheck)iferr!=nil{returnerr}"))
 	s.boolean("seenHQComparesCanonical", strings.Contains(hs, "ifitems[i].GetURL().String()==outputURLs[j].Value{found=truebreak}"))
 	cg := strings.ReplaceAll(src(fn("internal/pkg/config/config.go", "GenerateCrawlConfig")), " ", "")
 	var defaults []string
